@@ -376,6 +376,17 @@ func c10Eval(t *testing.T, run *h.Run, c c10Case) {
 				return rs.Name
 			})
 		}
+		if c.Setting == "none" && c.NodeAnnot != "good" {
+			for _, kind := range []string{"main-requests", "main-limits", "main-both"} {
+				kind := kind
+				perturb("the applicable setting (a valid setting starts selecting the node: "+kind+")", func(in client.Client) string {
+					c2 := c
+					c2.Setting = kind
+					_ = in.Create(ctx, c10Setting(c2, "300m"))
+					return rs.Name
+				})
+			}
+		}
 		if (c.Setting == "main-requests" || c.Setting == "main-both") && c.NodeAnnot != "good" {
 			perturb("a resource value of the applicable setting", func(in client.Client) string {
 				s := &v1.ExtendedDaemonsetSetting{}
